@@ -10,61 +10,22 @@ import (
 	"github.com/scionproto/scion/private/ringbuf"
 )
 
-// The receiving gateway keeps its frame buffers in a process-wide pool (gateway/dataplane
-// framebuf.go: var freeFrames, 1024 buffers, created on first use, never re-created, no exported
-// seam). A worker process executes many runs. The fill level of the pool decides the batch size of
-// IngressServer.read and with it the instants of its clean-ups, so a run that starts with a
-// depleted pool (because code under test leaked buffers in an earlier run of the process, e.g.
-// during the minimisation of a violation) would behave differently from the same run in a fresh
-// process, and its violation would not replay. The variable is therefore reached by name: after
-// every run the pool is counted, and a run that follows a run with a violation, an unfinished
-// shutdown or a leak starts with a pool that the gateway re-creates itself (initFreeFrames).
+// Process-wide state of the gateway that would make the n-th run of a worker process differ from
+// the same run in a fresh process (and a violation found there fail to replay). Both variables are
+// unexported and have no seam; they are reached by name and put back to their initial state before
+// every run. The gateway re-creates / re-seeds them itself on first use.
+//
+//  1. gateway/dataplane framebuf.go: var freeFrames, the pool of 1024 frame buffers of the receiving
+//     gateway. Its fill level decides the batch size of IngressServer.read and with it the instants
+//     of its clean-ups (code under test that leaks buffers depletes it), and a broken frameBuf.Reset
+//     leaves stale state in recycled buffers. A pool per run costs 64 MB of allocation (30-50 ms).
 //
 //go:linkname dataplaneFreeFrames github.com/scionproto/scion/gateway/dataplane.freeFrames
 var dataplaneFreeFrames *ringbuf.Ring
 
-const framePoolSize = 1024
-
-var poolDirty bool
-
-// preparePool is called at the start of a run.
-func preparePool() {
-	if poolDirty {
-		dataplaneFreeFrames = nil
-		dirtyMu.Lock()
-		dirty = map[*byte]int{}
-		dirtyMu.Unlock()
-		poolDirty = false
-	}
-}
-
-// auditPool is called at the end of a run, when no goroutine of the gateway is left and the
-// scheduling hook is off. It returns the number of buffers missing from the pool.
-func auditPool(clean bool) int {
-	if !clean {
-		poolDirty = true
-		return 0
-	}
-	if dataplaneFreeFrames == nil {
-		return 0
-	}
-	buf := make(ringbuf.EntryList, framePoolSize+8)
-	n, _ := dataplaneFreeFrames.Read(buf, false)
-	if n > 0 {
-		dataplaneFreeFrames.Write(buf[:n], false)
-	}
-	if n != framePoolSize {
-		poolDirty = true
-		return framePoolSize - max(n, 0)
-	}
-	return 0
-}
-
-// The sending gateway numbers its streams with a process-wide counter that is seeded from the
-// clock on first use (gateway/dataplane encoder.go: var streamIDs). Forgetting the seed before
-// every run makes the stream IDs of a run a function of the run alone (the first sender of the
-// run seeds the counter from the simulated clock), so that a replay in a fresh process sees the
-// same IDs as the n-th run of a worker process.
+//  2. gateway/dataplane encoder.go: var streamIDs, the counter the sending gateway numbers its
+//     streams with, seeded from the clock on first use. Un-seeded before a run, the first sender of
+//     the run seeds it from the simulated clock: stream IDs are a function of the run alone.
 //
 //go:linkname dataplaneStreamIDs github.com/scionproto/scion/gateway/dataplane.streamIDs
 var dataplaneStreamIDs struct {
@@ -73,9 +34,30 @@ var dataplaneStreamIDs struct {
 	last    uint32
 }
 
-func resetStreamIDs() {
+const framePoolSize = 1024
+
+// resetProcessState is called at the start of every run (no gateway goroutine exists).
+func resetProcessState() {
+	dataplaneFreeFrames = nil
+	dirtyMu.Lock()
+	dirty = map[*byte]int{}
+	dirtyMu.Unlock()
 	dataplaneStreamIDs.Lock()
 	dataplaneStreamIDs.started = false
 	dataplaneStreamIDs.last = 0
 	dataplaneStreamIDs.Unlock()
+}
+
+// auditPool is called at the end of a run, when no goroutine of the gateway is left and the
+// scheduling hook is off. It returns the number of buffers missing from the pool.
+func auditPool() int {
+	if dataplaneFreeFrames == nil {
+		return 0
+	}
+	buf := make(ringbuf.EntryList, framePoolSize+8)
+	n, _ := dataplaneFreeFrames.Read(buf, false)
+	if n > 0 {
+		dataplaneFreeFrames.Write(buf[:n], false)
+	}
+	return framePoolSize - max(n, 0)
 }
